@@ -929,7 +929,7 @@ func main() {
 			"searchdocs": chSD, "proxymerge": chPx, "mergeaggs": chAggs}
 		for _, l := range lines {
 			kind := strings.Fields(l + " .")[0]
-			if kind == "sys" || kind == "cluster" || kind == "sysbig" || kind == "sysdist" || kind == "grpc" || kind == "proxyreq" || kind == "sysagg" {
+			if kind == "sys" || kind == "cluster" || kind == "sysbig" || kind == "sysdist" || kind == "grpc" || kind == "proxyreq" || kind == "sysagg" || kind == "sysbulks" || kind == "syshotcold" {
 				sysLines = append(sysLines, l)
 			} else if ch := byKind[kind]; ch != nil {
 				ch.Add(l, runOp(l), true, "replay")
@@ -961,6 +961,8 @@ func main() {
 			lines = append(lines, genDist(g, o)...)
 			lines = append(lines, genAPI(g, o)...)
 			lines = append(lines, genSysAgg(g, o)...)
+			lines = append(lines, genSysBulks(g, o)...)
+			lines = append(lines, genHotCold(g, o)...)
 			// posting lists longer than one LID block (65536 entries) of a sealed fraction
 			lines = append(lines, fmt.Sprintf("sysbig n=%d k=%d", o.Pick(70000, 140000), o.Pick(3, 5)))
 			runSys(lines, chReal, orcSys, rep, o)
